@@ -41,7 +41,7 @@ func runC18(c *core.Ctx) {
 		c.Undecided("compare-normal-form", "skiplist.New", ctor.Pos(), "cannot discover the list type")
 		return
 	}
-	roles := skipRoles(nt)
+	roles := skipRoles(nt, ctor)
 	if roles == nil {
 		c.Undecided("compare-normal-form", "skiplist", ctor.Pos(), "cannot derive the roles of the list / node fields from their types")
 		return
@@ -83,140 +83,10 @@ func runC18(c *core.Ctx) {
 		return
 	}
 
-	// ---- traversals: advance condition and level loop
+	// ---- traversals: candidate test, level loop and cursor effects (independent of the loop forms: c18trav.go)
 	advance := map[*ssa.Function]string{}
 	for fn := range trav {
-		name := "skiplist." + fn.Name()
-		an := c.Analyze(fn)
-		if problems(c, "compare-normal-form", name, an) {
-			continue
-		}
-		okCmp, okLvl := true, true
-		nAdv := 0
-		var lvl *ssa.Phi
-		var outer *ssa.BasicBlock
-		for _, h := range an.Headers {
-			for _, in := range h.Instrs {
-				if phi, ok := in.(*ssa.Phi); ok && phi.Type().String() == "int" {
-					lvl, outer = phi, h
-				}
-			}
-		}
-		if lvl == nil {
-			c.Fail("level-loops", name, fn.Pos(), "no level counter found")
-			continue
-		}
-		lsym := an.Start[outer].Reg(lvl)
-		// entry: level starts somewhere (not constrained); outer loop: continue iff level >= 0, step -1
-		for _, p := range an.Segs[outer] {
-			neg := polarity(p, &ir.Term{Op: "bin", Aux: "<", Args: []*ir.Term{lsym, ir.Const("0")}})
-			if neg == 0 {
-				okLvl = false
-				c.Fail("level-loops", name, lastPos(p), "the level loop does not run while level >= 0 (level 0 must be included: skipping it loses elements)")
-			}
-			if neg > 0 && p.Exit != ir.ExitReturn {
-				okLvl = false
-			}
-		}
-		// every way back to the outer header decrements the level by exactly one
-		for _, h := range an.Headers {
-			for _, p := range an.Segs[h] {
-				if p.To != outer {
-					continue
-				}
-				cur := lsym
-				if h != outer {
-					cur = an.Start[h].Reg(lvl)
-					if cur == nil {
-						cur = joinSymOf(an, h, lvl)
-					}
-				}
-				v := p.PhiOut[lvl]
-				d, isK := plusConstAny(v, lsym, an, h, lvl)
-				if !isK || d != -1 {
-					okLvl = false
-					c.Fail("level-loops", name, lastPos(p), "a pass of the level loop changes the level by %d (known=%v), expected -1: %s", d, isK, short(v))
-				}
-				_ = cur
-			}
-		}
-		// advance condition
-		for _, h := range an.Headers {
-			for _, p := range an.Segs[h] {
-				for _, st := range p.Events(ir.KCall) {
-					if st.Method == nil || st.Method.Name() != "Compare" {
-						continue
-					}
-					// which argument is the search key
-					keyFirst := paramOf(st.A[1], fn, 1)
-					keySecond := paramOf(st.A[2], fn, 1)
-					if keyFirst == keySecond {
-						okCmp = false
-						c.Fail("compare-normal-form", name, st.Pos(), "Compare is not applied to (node key, search key)")
-						continue
-					}
-					nodeKey := st.A[1]
-					if keyFirst {
-						nodeKey = st.A[2]
-					}
-					if !(nodeKey.Op == "load" && nodeKey.Args[0].Op == "faddr" && nodeKey.Args[0].Aux == fKey) {
-						okCmp = false
-						c.Fail("compare-normal-form", name, st.Pos(), "the compared value %s is not a node's key", short(nodeKey))
-					}
-					// the branch on the result
-					adv := 0
-					form := ""
-					for _, b := range p.Events(ir.KBranch) {
-						if b.Atom.Op == "bin" && b.Atom.Aux == "==" && (ir.Same(b.Atom.Args[0], st.R) || ir.Same(b.Atom.Args[1], st.R)) {
-							k := b.Atom.Args[0]
-							if ir.Same(k, st.R) {
-								k = b.Atom.Args[1]
-							}
-							kv, _ := k.IntConst()
-							// node < key  <=>  Compare(nodeKey,key)==LT  or Compare(key,nodeKey)==GT
-							less := !keyFirst && kv == LT || keyFirst && kv == GT
-							if !less {
-								okCmp = false
-								c.Fail("compare-normal-form", name, b.Pos(), "the traversal tests Compare(...) == %d: the advance condition must be 'node key < search key' (LT=%d with the node key first, GT=%d with the search key first)", kv, LT, GT)
-							}
-							adv = polInt(b.Pol)
-							form = "node key < key"
-						}
-					}
-					if adv == 0 {
-						okCmp = false
-						c.Fail("compare-normal-form", name, st.Pos(), "the result of Compare is not tested against a constant ordering")
-						continue
-					}
-					nAdv++
-					advance[fn] = form
-					// advancing path moves along the same level (stays in the inner loop), the other one goes down
-					if adv > 0 && p.To != h {
-						okCmp = false
-						c.Fail("compare-normal-form", name, lastPos(p), "when the next node is smaller the traversal must advance on the same level")
-					}
-					if adv < 0 && p.To == h {
-						okCmp = false
-						c.Fail("compare-normal-form", name, lastPos(p), "when the next node is not smaller the traversal must stop advancing on this level")
-					}
-				}
-			}
-		}
-		if nAdv == 0 {
-			okCmp = false
-			c.Fail("compare-normal-form", name, fn.Pos(), "the traversal never compares keys")
-		}
-		// advance effects, nil guard, path recording and the result
-		okAdv := travEffects(c, name, fn, an, outer, lvl)
-		if okCmp {
-			c.Ok("compare-normal-form", name, fn.Pos(), "advance iff node key < key")
-		}
-		if okLvl {
-			c.Ok("level-loops", name, fn.Pos(), "level-- down to 0 inclusive")
-		}
-		if okAdv {
-			c.Ok("traversal-effects", name, fn.Pos(), "advance: node := node.fingers[l], next := node.fingers; nil finger or not-smaller: go down recording the node; result next[0]")
-		}
+		advance[fn] = traversalRule(c, "skiplist."+fn.Name(), fn, LT, GT)
 	}
 	// siblings agree
 	if len(trav) == 2 {
@@ -298,6 +168,19 @@ func runC18(c *core.Ctx) {
 	{
 		name := "skiplist.Put"
 		an := c.Analyze(put)
+		{
+			// helpers with loops (a splice helper) are analysed as part of Put; the traversal and the node
+			// constructor stay opaque (they are checked on their own / are the source of rank and node)
+			var mkFn *ssa.Function
+			for _, p := range an.AllPaths() {
+				for _, st := range p.Events(ir.KCall) {
+					if st.Static != nil && st.Static != travOf[put] && len(st.A) == 3 && paramOf(st.A[0], put, 0) && paramOf(st.A[1], put, 1) && paramOf(st.A[2], put, 2) {
+						mkFn = st.Static
+					}
+				}
+			}
+			an = c.AnalyzeLoopsExcept(put, travOf[put], mkFn)
+		}
 		okR, okS, okL := len(an.Problems) == 0, true, true
 		whyR, whyS, whyL := "", "", ""
 		var mk *ir.Step
@@ -328,16 +211,21 @@ func runC18(c *core.Ctx) {
 		} else {
 			rank := &ir.Term{Op: "extract", Aux: "0", Args: []*ir.Term{mk.R}}
 			node := &ir.Term{Op: "extract", Aux: "1", Args: []*ir.Term{mk.R}}
+			nodeLen := &ir.Term{Op: "len", Args: []*ir.Term{fingersOf(node)}}
+			rankIsHeight := mkNodeRankIsHeight(c, mk.Static)
+			mkNodeHeightBound(c, ctor, mk.Static)
 			for _, h := range an.Headers {
 				l := countedLoop(an, h)
-				if l == nil || l.Step != 1 || l.Op != "<" || !ir.Same(l.Bound, rank) {
+				// every level of the new node, ascending from 0: trip count len(node.fingers), or the rank the node
+				// constructor returns when that is the length of the finger slice it builds
+				if l == nil || l.Step != 1 || l.Trip == nil || l.Rotated() || !(ir.Same(l.Trip, nodeLen) || ir.Same(l.Trip, rank) && rankIsHeight) {
 					okL, whyL = false, "the splice loop does not run over levels 0 .. rank-1 of the new node"
 					continue
 				}
-				if s0, isK := l.Start.IntConst(); !isK || s0 != 0 {
-					okL, whyL = false, "the splice loop does not start at level 0"
-				}
 				lv := an.Start[h].Reg(l.Phi)
+				if l.RangeOver != nil {
+					lv = l.Index(an)
+				}
 				for _, p := range an.Segs[h] {
 					if p.To != h {
 						continue
@@ -365,7 +253,7 @@ func runC18(c *core.Ctx) {
 	// Remove
 	{
 		name := "skiplist.Remove"
-		an := c.Analyze(rem)
+		an := c.AnalyzeLoopsExcept(rem, travOf[rem])
 		okR, okU, okL := len(an.Problems) == 0, true, true
 		whyR, whyU, whyL := "", "", ""
 		var node, path *ir.Term
@@ -484,129 +372,128 @@ func builtTypeAny(fn *ssa.Function) *types.Named {
 	return nt
 }
 
-func joinSymOf(an *ir.Analysis, h *ssa.BasicBlock, v ssa.Value) *ir.Term { return an.Start[h].Reg(v) }
-
-// plusConstAny: v == level-at-outer-header + c, where inside an inner loop the level is carried as a join symbol.
-func plusConstAny(v, outerSym *ir.Term, an *ir.Analysis, h *ssa.BasicBlock, lvl *ssa.Phi) (int64, bool) {
-	if d, ok := plusConst(v, outerSym); ok {
-		return d, true
-	}
-	if inner := an.Start[h].Reg(lvl); inner != nil {
-		if d, ok := plusConst(v, inner); ok {
-			return d, true
-		}
-	}
-	return 0, false
-}
-
-// travEffects: what a traversal does besides comparing.
-func travEffects(c *core.Ctx, name string, fn *ssa.Function, an *ir.Analysis, outer *ssa.BasicBlock, lvl *ssa.Phi) bool {
-	ok := true
-	fail := func(pos tokenPosT, format string, a ...any) {
-		ok = false
-		c.Fail("traversal-effects", name, pos, format, a...)
-	}
-	isNodePtr := func(t types.Type) bool { _, p := t.(*types.Pointer); return p }
-	isSlice := func(t types.Type) bool { _, sl := t.Underlying().(*types.Slice); return sl }
-	recordsPath := fn.Signature.Results().Len() == 2
-	for _, h := range an.Headers {
-		var nodePhi, nextPhi *ssa.Phi
-		for _, in := range h.Instrs {
-			if phi, isPhi := in.(*ssa.Phi); isPhi {
-				switch {
-				case isNodePtr(phi.Type()):
-					nodePhi = phi
-				case isSlice(phi.Type()):
-					nextPhi = phi
-				}
-			}
-		}
-		if nodePhi == nil || nextPhi == nil {
-			fail(fn.Pos(), "loop without node / next cursors")
-			continue
-		}
-		nodeS, nextS := an.Start[h].Reg(nodePhi), an.Start[h].Reg(nextPhi)
-		lv := an.Start[h].Reg(lvl)
-		if lv == nil {
-			lv = an.Start[outer].Reg(lvl)
-		}
-		for _, p := range an.Segs[h] {
-			if p.Exit == ir.ExitReturn {
-				// result: next[0] (and the recorded path)
-				r := p.Results[0]
-				good := r.Op == "load" && r.Args[0].Op == "iaddr" && ir.Same(r.Args[0].Args[0], nextS)
-				if good {
-					k, isK := r.Args[0].Args[1].IntConst()
-					good = isK && k == 0
-				}
-				if !good {
-					fail(lastPos(p), "the traversal returns %s, expected the level-0 successor next[0]", short(r))
-				}
-				continue
-			}
-			if h == outer && p.To != outer {
-				// entering the inner loop: cursors unchanged
-				continue
-			}
-			// inner loop paths (or a single-loop traversal)
-			var cmp *ir.Step
-			for _, st := range p.Events(ir.KCall) {
-				if st.Method != nil && st.Method.Name() == "Compare" {
-					cmp = st
-				}
-			}
-			finger := &ir.Term{Op: "load", Aux: "0", Args: []*ir.Term{{Op: "iaddr", Args: []*ir.Term{nextS, lv}}}}
-			isNil := polarity(p, &ir.Term{Op: "bin", Aux: "==", Args: sorted2(ir.Nil, finger)})
-			advanced := p.To == h && h != outer
-			stores := nonLocalStores(p)
-			if cmp != nil && isNil >= 0 {
-				fail(cmp.Pos(), "the next node's key is compared without having established that next[level] is not nil")
-			}
-			if cmp == nil && isNil <= 0 && h != outer {
-				fail(lastPos(p), "a pass of the advance loop neither finds next[level] == nil nor compares its key")
-			}
-			if advanced {
-				wantNode := &ir.Term{Op: "load", Aux: "0", Args: []*ir.Term{{Op: "iaddr", Args: []*ir.Term{{Op: "load", Aux: "0", Args: []*ir.Term{{Op: "faddr", Aux: fFingers, Args: []*ir.Term{nodeS}}}}, lv}}}}
-				wantNext := &ir.Term{Op: "load", Aux: "0", Args: []*ir.Term{{Op: "faddr", Aux: fFingers, Args: []*ir.Term{wantNode}}}}
-				if !ir.Same(p.PhiOut[nodePhi], wantNode) || !ir.Same(p.PhiOut[nextPhi], wantNext) || len(stores) != 0 {
-					fail(lastPos(p), "advancing must set node := node.fingers[level] and next := node.fingers and nothing else; found node' = %s, next' = %s", short(p.PhiOut[nodePhi]), short(p.PhiOut[nextPhi]))
-				}
-				if isNil > 0 {
-					fail(lastPos(p), "the traversal advances over a nil finger")
-				}
-				continue
-			}
-			if h != outer && p.To == outer {
-				// going down one level: cursors kept, node recorded (insertion path)
-				op, on := p.PhiOut[phiOf(outer, nodePhi)], p.PhiOut[phiOf(outer, nextPhi)]
-				if !ir.Same(op, nodeS) || !ir.Same(on, nextS) {
-					fail(lastPos(p), "going down a level must keep node and next; found node' = %s", short(op))
-				}
-				if recordsPath {
-					good := len(stores) == 1 && stores[0].A[0].Op == "iaddr" && ir.Same(stores[0].A[0].Args[1], lv) && ir.Same(stores[0].A[1], nodeS) &&
-						stores[0].A[0].Args[0].Op == "load" && stores[0].A[0].Args[0].Args[0].Op == "faddr" && stores[0].A[0].Args[0].Args[0].Aux == fPath
-					if !good {
-						fail(lastPos(p), "going down a level must record path[level] := node exactly once (found %d stores): Put and Remove would splice at stale predecessors", len(stores))
-					}
-				} else if len(stores) != 0 {
-					fail(lastPos(p), "the read-only traversal stores")
-				}
-			}
-		}
-	}
-	return ok
-}
-
 type tokenPosT = token.Pos
 
-// phiOf: the phi of block b that has the same comment (source variable) as like.
-func phiOf(b *ssa.BasicBlock, like *ssa.Phi) *ssa.Phi {
-	for _, in := range b.Instrs {
-		if phi, ok := in.(*ssa.Phi); ok && phi.Comment == like.Comment {
-			return phi
+// mkNodeRankIsHeight: on every returning path of the node constructor the first result is the length of the finger
+// slice stored in the node it returns.
+func mkNodeRankIsHeight(c *core.Ctx, mk *ssa.Function) bool {
+	if mk == nil || mk.Signature.Results().Len() != 2 {
+		return false
+	}
+	an := c.AnalyzeLoops(mk)
+	if len(an.Problems) > 0 {
+		return false
+	}
+	n := 0
+	for _, p := range an.AllPaths() {
+		if p.Exit != ir.ExitReturn {
+			continue
+		}
+		n++
+		if len(p.Results) != 2 {
+			return false
+		}
+		var fing *ir.Term
+		if p.End != nil {
+			fing = p.End.MemAt(&ir.Term{Op: "faddr", Aux: fFingers, Args: []*ir.Term{p.Results[1]}})
+		}
+		if fing == nil {
+			fing = ir.FieldOf(p.Results[1], fFingers)
+		}
+		if fing == nil || fing.Op != "mkslice" || len(fing.Args) < 1 || !ir.Same(fing.Args[0], p.Results[0]) {
+			return false
 		}
 	}
-	return nil
+	return n > 0
+}
+
+// mkNodeHeightBound: the height of a new node never exceeds the number of levels of the list (the length of the
+// head's finger slice and of the insertion path, as the constructor makes them): the height is a counter that
+// starts at 0 and is incremented only under `counter < list.<levels>`, so counter <= levels is an inductive
+// invariant (levels is a length, hence non-negative). A taller node makes Put index the path out of range.
+func mkNodeHeightBound(c *core.Ctx, ctor, mk *ssa.Function) {
+	name := "skiplist." + mk.Name()
+	// the int field that holds the length the constructor gives to the path / head fingers
+	lvField := ""
+	{
+		an := c.Analyze(ctor)
+		for _, p := range an.AllPaths() {
+			var pathLen *ir.Term
+			for _, st := range p.Events(ir.KStore) {
+				if st.A[0].Op == "faddr" && st.A[0].Aux == fPath && st.A[1].Op == "mkslice" && len(st.A[1].Args) > 0 {
+					pathLen = st.A[1].Args[0]
+				}
+			}
+			for _, st := range p.Events(ir.KStore) {
+				if st.A[0].Op == "faddr" && intFields[st.A[0].Aux] && pathLen != nil && ir.Same(st.A[1], pathLen) {
+					lvField = st.A[0].Aux
+				}
+			}
+		}
+	}
+	if lvField == "" {
+		c.Undecided("level-loops", name, mk.Pos(), "cannot find the field that records the number of levels (the length of the insertion path) in the constructor")
+		return
+	}
+	an := c.Analyze(mk)
+	if problems(c, "level-loops", name, an) {
+		return
+	}
+	levels := &ir.Term{Op: "load", Aux: "0", Args: []*ir.Term{{Op: "faddr", Aux: lvField, Args: []*ir.Term{{Op: "param", Aux: mk.Params[0].Name()}}}}}
+	ok, why := true, ""
+	bounded := map[string]bool{} // keys of terms known to be <= levels
+	for _, h := range an.Headers {
+		for _, in := range h.Instrs {
+			phi, isPhi := in.(*ssa.Phi)
+			if !isPhi {
+				break
+			}
+			b, isB := phi.Type().Underlying().(*types.Basic)
+			if !isB || b.Info()&types.IsInteger == 0 {
+				continue
+			}
+			sym := an.Start[h].Reg(phi)
+			inductive := true
+			for _, ps := range an.Segs {
+				for _, p := range ps {
+					if p.To != h {
+						continue
+					}
+					v := p.PhiOut[phi]
+					if p.From == nil || !ir.LoopBlocks(h)[p.From] {
+						if k, isK := v.IntConst(); !isK || k > 0 {
+							inductive = false
+						}
+						continue
+					}
+					d, isD := plusConst(v, sym)
+					switch {
+					case isD && d == 1 && polarity(p, &ir.Term{Op: "bin", Aux: "<", Args: []*ir.Term{sym, levels}}) > 0:
+					default:
+						inductive = false
+					}
+				}
+			}
+			if inductive {
+				bounded[sym.Key()] = true
+			}
+		}
+	}
+	n := 0
+	for _, p := range an.AllPaths() {
+		if p.Exit != ir.ExitReturn || len(p.Results) == 0 {
+			continue
+		}
+		n++
+		r := p.Results[0]
+		if k, isK := r.IntConst(); isK && k <= 0 {
+			continue
+		}
+		if !bounded[r.Key()] {
+			ok, why = false, "the height "+short(r)+" of a new node is not bounded by the list's number of levels (a counter from 0 incremented only while counter < list."+lvField+"): Put would index the insertion path out of range"
+		}
+	}
+	c.Check(ok && n > 0, "level-loops", name, mk.Pos(), "node height <= list."+lvField+" = len(path) = len(head.fingers)", "%s", why)
 }
 
 // field roles of the skip list, derived from types (never from names)
@@ -620,7 +507,40 @@ type skipRoleSet struct {
 	ints                          map[string]bool
 }
 
-func skipRoles(list *types.Named) *skipRoleSet {
+func skipRoles(list *types.Named, ctor *ssa.Function) *skipRoleSet {
+	// fields the constructor initialises with a freshly allocated node (the head sentinel) resp. a fresh slice
+	// (the insertion path): they disambiguate when a struct has several fields of the same type
+	freshInit := map[string]bool{}
+	if ctor != nil {
+		for _, b := range ctor.Blocks {
+			for _, in := range b.Instrs {
+				st, ok := in.(*ssa.Store)
+				if !ok {
+					continue
+				}
+				fa, ok := st.Addr.(*ssa.FieldAddr)
+				if !ok {
+					continue
+				}
+				pt, ok := fa.X.Type().Underlying().(*types.Pointer)
+				if !ok {
+					continue
+				}
+				stt, ok := pt.Elem().Underlying().(*types.Struct)
+				if !ok {
+					continue
+				}
+				switch v := st.Val.(type) {
+				case *ssa.Alloc:
+					freshInit[stt.Field(fa.Field).Name()] = true
+				case *ssa.MakeSlice:
+					freshInit[stt.Field(fa.Field).Name()] = true
+				default:
+					_ = v
+				}
+			}
+		}
+	}
 	lst, ok := list.Underlying().(*types.Struct)
 	if !ok {
 		return nil
@@ -633,13 +553,17 @@ func skipRoles(list *types.Named) *skipRoleSet {
 		case *types.Pointer:
 			if n, isN := t.Elem().(*types.Named); isN {
 				if _, isS := n.Underlying().(*types.Struct); isS {
-					r.head, node = f.Name(), n
+					if r.head == "" || freshInit[f.Name()] && !freshInit[r.head] {
+						r.head, node = f.Name(), n
+					}
 				}
 			}
 		case *types.Slice:
 			if pt, isP := t.Elem().(*types.Pointer); isP {
 				if _, isN := pt.Elem().(*types.Named); isN {
-					r.path = f.Name()
+					if r.path == "" || freshInit[f.Name()] && !freshInit[r.path] {
+						r.path = f.Name()
+					}
 				}
 			}
 		case *types.Basic:
